@@ -63,6 +63,46 @@ CHECKS = {
             "failing event and resume exactly, step must contain the failure.",
             "WARN_AND_END/EXIT outside the property; library stdout/stderr "
             "noise discarded."),
+    "C08": ("model_checking",
+            "explicit-state BFS over subscription states of a real "
+            "EventProducer to the fixed point x every op x re-entrancy "
+            "script, vs snapshot-at-fire reference; exhaustive payload table",
+            "seqmc",
+            "All reachable subscription states (ordered subscriber tuples per "
+            "type) of one real producer with 2 types x 3 listeners and 1 type "
+            "x 5 listeners (thorough: more), every add/remove/remove_all form "
+            "and every fire/fire_timed paired with each re-entrancy script "
+            "(unsubscribe self/later, subscribe, nested fire same/other type, "
+            "remove_all) compared on the per-listener delivery log; plus every "
+            "metadata declaration x payload shape x check flag x creation "
+            "path.",
+            "Listeners re-enter at most one level deep per listener; the "
+            "producer's internal dict order is unobservable."),
+    "C09": ("exploration",
+            "bounded-exhaustive enumeration of observation histories on the "
+            "real Tally/Counter variants vs exact rational arithmetic",
+            "seqmc",
+            "Every history of length <=5 (thorough 6) over a 7-value alphabet "
+            "(mixed magnitude, large offset/small spread, equal values) plus "
+            "initialize(), on Tally, EventBasedTally with subscriber and via "
+            "notify; all 19 getters after every op against Fractions with "
+            "data-derived tolerances; NaN structure; rejected inputs leave "
+            "every getter bit-identical; long families to n=2000; Counter "
+            "variants.",
+            "Tolerance 256*n*eps*conditioning scale; infinities outside the "
+            "property."),
+    "C10": ("exploration",
+            "bounded-exhaustive enumeration of (weight,value) and timestamp "
+            "histories on the real weighted tallies vs exact rational "
+            "arithmetic / exact step-function integrals",
+            "seqmc",
+            "Every (weight,value) history of length <=3 (thorough 4) over 5 "
+            "weights x 6 values (zero weights, non-dyadic, large offset) plus "
+            "initialize(); every non-decreasing timestamp history of length "
+            "<=4 (5) with repeats x values x closing variants x re-initialise; "
+            "plain, subscriber and notify variants.",
+            "Mean at total weight zero and time average over zero span are "
+            "unspecified cells."),
 }
 
 NOT_YET = {}
